@@ -196,6 +196,11 @@ type Server struct {
 		cachedAt   time.Time
 		refreshing bool
 	}
+
+	// HoldConfig, when set, keeps a configuration reload from being applied until
+	// the returned function is called; the publish handlers hold it while they
+	// validate and store a batch, so that every item is judged by one configuration.
+	HoldConfig func() (release func())
 }
 
 type PublishResultEvent struct {
@@ -2109,6 +2114,9 @@ func (s *Server) handleMessagesPublish(w http.ResponseWriter, r *http.Request) {
 		return
 	}
 
+	if s.HoldConfig != nil {
+		defer s.HoldConfig()()
+	}
 	managedRoutes, managedRoutesAvailable := s.managedRouteSet()
 	prepared := make([]queue.Envelope, 0, len(items))
 	for idx, item := range items {
@@ -3319,6 +3327,9 @@ func (s *Server) handleApplicationEndpointPublish(w http.ResponseWriter, r *http
 	if s.Store == nil {
 		s.writePublishError(w, http.StatusServiceUnavailable, publishCodeStoreUnavailable, "queue store is unavailable", -1, true)
 		return
+	}
+	if s.HoldConfig != nil {
+		defer s.HoldConfig()()
 	}
 	route, targets, status, code, detail, ok := s.resolveManagedEndpointPublishScope(application, endpointName)
 	if !ok {
